@@ -114,7 +114,8 @@ pub fn risky_id() -> BoxedStrategy<char> {
     prop_oneof![
         20 => gens::pick(&p.width),
         20 => gens::pick(&p.cased),
-        15 => gens::pick(&p.norm),
+        10 => gens::pick(&p.norm),
+        5 => gens::pick(&p.compose_tail),
         10 => gens::pick(&p.ctx),
         20 => gens::pick(&p.rtl),
         5 => gens::pick(&p.zs),
@@ -130,14 +131,16 @@ pub fn username_strings() -> BoxedStrategy<String> {
     let mixed: BoxedStrategy<String> = vec(prop_oneof![3 => gens::pick(&p.id_valid), 2 => gens::pick(&p.cased), 2 => gens::pick(&p.norm), 2 => gens::pick(&p.width), 1 => gens::pick(&p.ctx)], 0..=10)
         .prop_map(gens::s_of)
         .boxed();
-    prop_oneof![
-        25 => gens::valid_biased(&p.id_friendly, risky_id()),
-        20 => gens::valid_biased(&p.id_valid, risky_id()),
-        20 => mixed,
-        20 => rtl_base,
-        15 => gens::gstring(),
-    ]
-    .boxed()
+    gens::respelled(
+        prop_oneof![
+            25 => gens::valid_biased(&p.id_friendly, risky_id()),
+            20 => gens::valid_biased(&p.id_valid, risky_id()),
+            20 => mixed,
+            20 => rtl_base,
+            15 => gens::gstring(),
+        ]
+        .boxed(),
+    )
 }
 pub fn risky_ff() -> BoxedStrategy<char> {
     let p = pools();
@@ -145,7 +148,8 @@ pub fn risky_ff() -> BoxedStrategy<char> {
         30 => gens::pick(&p.zs),
         15 => gens::pick(&p.nfkc_space),
         15 => gens::pick(&p.compat_ff),
-        15 => gens::pick(&p.norm),
+        10 => gens::pick(&p.norm),
+        5 => gens::pick(&p.compose_tail),
         10 => gens::pick(&p.cased),
         5 => gens::pick(&p.ctx),
         10 => gens::gchar(),
@@ -157,12 +161,14 @@ pub fn freeform_strings() -> BoxedStrategy<String> {
     let spacey: BoxedStrategy<String> = vec(prop_oneof![3 => gens::pick(&p.zs), 2 => Just(' '), 2 => gens::pick(&p.nfkc_space), 4 => gens::pick(&p.ff_valid), 2 => gens::pick(&p.compat_ff), 2 => gens::pick(&p.norm)], 0..=12)
         .prop_map(gens::s_of)
         .boxed();
-    prop_oneof![
-        45 => gens::valid_biased(&p.ff_valid, risky_ff()),
-        40 => spacey,
-        15 => gens::gstring(),
-    ]
-    .boxed()
+    gens::respelled(
+        prop_oneof![
+            45 => gens::valid_biased(&p.ff_valid, risky_ff()),
+            40 => spacey,
+            15 => gens::gstring(),
+        ]
+        .boxed(),
+    )
 }
 pub fn strings_for(p: Prof) -> BoxedStrategy<String> {
     if p.is_username() { username_strings() } else { freeform_strings() }
